@@ -178,7 +178,12 @@ def run(case):
             g = np.sqrt(f)
             h = f + 1
             a2 = np.add(f, f)
-            for x, expect in ((g, np.sqrt(f.data)), (h, f.data + 1), (a2, f.data * 2)):
+            # the other operand as every kind of scalar (Python numbers, NumPy scalars of every width), either side
+            scal = []
+            for sc in (2, 2.0, True, np.int64(2), np.int32(2), np.intp(2), np.uint8(2), np.int8(2), np.float64(2), np.float32(2),
+                       np.float16(2), np.array(2), np.array(2.0, dtype=np.float32)):
+                scal += [(f * sc, f.data * sc), (sc * f, sc * f.data), (np.maximum(f, sc), np.maximum(f.data, sc))]
+            for x, expect in [(g, np.sqrt(f.data)), (h, f.data + 1), (a2, f.data * 2)] + scal:
                 ok = ok and isinstance(x, SlidingWindowFeature) and x.sliding_window is f.sliding_window \
                     and x.labels == f.labels and bool((x.data == expect).all())
             # two iterations alive at once (a feature and a ufunc result, which share the window object; the window
